@@ -30,7 +30,16 @@ KNOWN_LIBRARY_ISSUES = [
      'the flags byte of the only SL entry, puts the remaining components in an SL entry on the '
      'continuation list that is never written (there is no CE), and the link target on disc is '
      'truncated.  E.g. rock_ridge=1.09, name "s", target "/".join(["a"]*34 .. 54).'),
-]
+    ('reloc-long-name', 'susp:ce-outside',
+     'add_directory() of a directory that must be relocated (depth 8) whose rr_name is too long for the '
+     'directory record: PyCdlib._add_directory calls _update_rr_ce_entry() for the real record under '
+     'RR_MOVED but never for the CL placeholder record ("fake_dir_rec"), so the placeholder keeps CE '
+     'block 0 / offset 0 and its continuation area (rest of NM, PX, TF, CL) is written over bytes 0.. of '
+     'the System Area (sector 0).'),
+] + [('reloc-long-name two', k,
+      'same defect with two such siblings: both continuation areas land on sector 0 offset 0, the second '
+      'overwrites the first, so the first placeholder shows the second one\'s NM tail/PX/TF/CL')
+     for k in ('susp:ce-overlap', 'susp:len-sum', 'susp:cl-target', 'susp:pl-target', 'px:nlink:dir', 'name:flags')]
 FAILS = []
 NOTES = []
 KNOWN_HITS = {}
@@ -133,7 +142,7 @@ def verify(label, b, img=None, expect_known=()):
         check(n.hidden == (n.iso_path in b.hidden), label + ' hidden', (lp, n.iso_path, n.hidden))
     # byte ranges reported for continuation areas are inside the image and never inside a directory
     dirs = [(s, e) for k, _, s, e in iso.extent_map if k == 'iso-dir']
-    for kind, ident, s, e in v.extent_map:
+    for kind, ident, s, e in () if expect_known else v.extent_map:
         check(0 < s < e <= len(img) and not any(s < de and ds < e for ds, de in dirs), label + ' extent', (kind, ident, s, e))
     return v
 
@@ -283,6 +292,143 @@ def t_deep():
         verify('deep removal ' + tag, b)
 
 
+def t_reloc_long_name():
+    for ver, xa, tag in combos():
+        b = Build(ver, xa)
+        p = ''
+        for i in range(1, 8):
+            p += '/D%d' % i
+            b.dir(p, 'd%d' % i)
+        b.dir(p + '/D8', 'x' * 200)
+        img = b.image()
+        v = verify('reloc-long-name one ' + tag, b, img, expect_known=('susp:ce-outside',))
+        ph = v.entries[p + '/D8']
+        check(ph.ce_areas == [(0, ph.ce_areas[0][1])] and ph.cl == v.entries['/RR_MOVED/D8'].rec.extent[0] and
+              any(img[:64]) and set(v.logical) == set(b.exp) | {'/rr_moved'}, 'reloc-long-name bytes ' + tag, ph.ce_areas)
+        b = Build(ver, xa)
+        p = ''
+        for i in range(1, 8):
+            p += '/D%d' % i
+            b.dir(p, 'd%d' % i)
+        b.dir(p + '/D8', 'x' * 200)
+        b.dir(p + '/E8', 'y' * 240)
+        verify('reloc-long-name two ' + tag, b, expect_known=('susp:ce-outside', 'susp:ce-overlap'))
+
+
+class Zeros(io.RawIOBase):
+    """A readable all-zero file of any size."""
+
+    def __init__(self, n):
+        super().__init__()
+        self.n, self.p = n, 0
+
+    def readable(self):
+        return True
+
+    def seekable(self):
+        return True
+
+    def tell(self):
+        return self.p
+
+    def seek(self, o, w=0):
+        self.p = o if w == 0 else self.p + o if w == 1 else self.n + o
+        return self.p
+
+    def readinto(self, buf):
+        k = max(0, min(len(buf), self.n - self.p))
+        buf[:k] = bytes(k)
+        self.p += k
+        return k
+
+
+class Sink(io.RawIOBase):
+    """A write-only sparse image: keeps small writes, forgets bulk data; len() and slicing only."""
+
+    def __init__(self):
+        super().__init__()
+        self.p = self.size = 0
+        self.kept = {}
+
+    def writable(self):
+        return True
+
+    def seekable(self):
+        return True
+
+    def tell(self):
+        return self.p
+
+    def seek(self, o, w=0):
+        self.p = o if w == 0 else self.p + o if w == 1 else self.size + o
+        return self.p
+
+    def write(self, d):
+        if len(d) < 65536 or self.p < 1 << 20:
+            self.kept[self.p] = bytes(d)
+        self.p += len(d)
+        self.size = max(self.size, self.p)
+        return len(d)
+
+    def __len__(self):
+        return self.size
+
+    def __getitem__(self, sl):
+        a, b, _ = sl.indices(self.size)
+        out = bytearray(max(0, b - a))
+        for o, d in self.kept.items():
+            if o < b and o + len(d) > a:
+                lo, hi = max(a, o), min(b, o + len(d))
+                out[lo - a:hi - a] = d[lo - o:hi - o]
+        return bytes(out)
+
+
+def t_multi_extent():
+    for ver in ('1.09', '1.12'):
+        b = Build(ver)
+        n = (1 << 32) + 5000
+        name = 'big' + 'g' * 160
+        b.iso.add_fp(Zeros(n), n, iso_path='/BIG.;1', rr_name=name, file_mode=0o100600)
+        b.exp['/' + name] = ('file', 0o100600, None)
+        b.names['/BIG.;1'] = name
+        b.file('/F.;1', 'f')
+        sink = Sink()
+        b.iso.write_fp(sink)
+        b.iso.close()
+        v = verify('multi-extent ' + ver, b, sink)
+        check(len(v.others) == 1 and v.others[0].name == name.encode() and v.logical['/' + name].length == n and
+              len([1 for k, i, _, _ in v.extent_map if k == 'rr-ce' and i.startswith('/BIG.;1')]) == 2,
+              'multi-extent records ' + ver, (v.others, v.extent_map))
+
+
+def t_histories(count=60):
+    """Random add/remove histories (no reopen, short directory names)."""
+    rnd = random.Random(4711)
+    for it in range(count):
+        ver, xa = rnd.choice(VERSIONS), rnd.random() < 0.3
+        b = Build(ver, xa, **({'joliet': 3} if rnd.random() < 0.3 else {}))
+        dirs, files = [''], []
+        for n in range(1, rnd.randrange(5, 50)):
+            op, d = rnd.random(), rnd.choice(dirs)
+            if op < 0.3:
+                d = max(dirs, key=lambda x: x.count('/')) if rnd.random() < 0.6 else d
+                if d.count('/') < 10:
+                    b.dir('%s/D%d' % (d, n), 'd%d' % n + 'q' * rnd.choice((0, 0, 10, 20)))
+                    dirs.append('%s/D%d' % (d, n))
+            elif op < 0.6:
+                nm = 'f%d' % n + 'w' * rnd.choice((0, 5, 50, 120, 130, 140, 150, 200, 250, 251, 400))
+                b.file('%s/F%d.;1' % (d, n), nm)
+                files.append(('%s/F%d.;1' % (d, n), nm))
+            elif op < 0.8:
+                nm = 's%d' % n + 'w' * rnd.choice((0, 5, 50, 120, 200))
+                t = '/'.join(rnd.choice(('a', 'bb', '..', '.', 'c' * rnd.randrange(1, 300))) for _ in range(rnd.randrange(1, 7)))
+                b.link('%s/S%d.;1' % (d, n), nm, ('/' if rnd.random() < 0.3 else '') + t)
+                files.append(('%s/S%d.;1' % (d, n), nm))
+            elif files:
+                b.rm(*files.pop(rnd.randrange(len(files))))
+        verify('history %d %s%s' % (it, ver, '+xa' if xa else ''), b)
+
+
 # ---------------------------------------------------------------------------------------------
 def base_image():
     b = Build('1.09')
@@ -414,7 +560,7 @@ def main():
     t0 = time.time()
     scratch = tempfile.mkdtemp(prefix='test_susp_')
     try:
-        for fn in (t_basic, t_names, t_symlinks, t_deep, t_corruptions, t_fuzz):
+        for fn in (t_basic, t_names, t_symlinks, t_deep, t_reloc_long_name, t_multi_extent, t_histories, t_corruptions, t_fuzz):
             t = time.time()
             r = fn()
             print('%-14s %s  %.1fs' % (fn.__name__, 'done' if r is None else '%s cases' % r, time.time() - t))
